@@ -50,9 +50,9 @@ def Codec.usesBitsStored : Codec → Bool
     `extParamDepth` is `JPEGExtendedParameters.BitDepth` after `Validate` (8 or 12); it is only used
     when BitsStored = 0.
     * rle/rle.go encodeFrame: `bytesAllocated := (BitsAllocated-1)/8+1` — the container is the depth;
-    * jpeg/baseline/codec.go: `BitsStored > 8` rejected, `Encode(frame, W, H, SPP, quality)` (8 bit implied);
-    * jpeg/extended/codec.go: `BitsStored > 12` rejected; `bitDepth := params.BitDepth`, overridden by
-      8 if 0 < BitsStored ≤ 8, by 12 if 8 < BitsStored ≤ 12;
+    * jpeg/baseline/codec.go: `BitsStored < 1 || BitsStored > 8` rejected, `Encode(frame, W, H, SPP, quality)` (8 bit implied);
+    * jpeg/extended/codec.go: `BitsStored < 1 || BitsStored > 12` rejected; `bitDepth := params.BitDepth`, overridden by
+      8 if 0 < BitsStored ≤ 8, by 12 if 8 < BitsStored ≤ 12 (since the `< 1` guard one of the two always applies);
     * jpeg/lossless, jpeg/lossless14sv1: `Encode(frame, W, H, SPP, int(BitsStored)[, predictor])`;
     * jpegls/lossless, jpegls/nearlossless: `BitsStored < 2 || > 16` rejected, BitsStored passed;
     * jpeg2000/lossless, lossy: `DefaultEncodeParams(W, H, SPP, int(BitsStored), PixelRepresentation != 0)`;
@@ -64,9 +64,9 @@ def passDown (k : Codec) (fi : FI) (extParamDepth : Int := 12) : Option Passed :
   if k.usesBitsStored && (fi.BS + 7) / 8 != (fi.BA + 7) / 8 then none else
   match k with
   | .rle => some (geo fi.BA false)
-  | .baseline => if fi.BS > 8 then none else some (geo 8 false)
+  | .baseline => if fi.BS < 1 ∨ fi.BS > 8 then none else some (geo 8 false)
   | .extended =>
-    if fi.BS > 12 then none
+    if fi.BS < 1 ∨ fi.BS > 12 then none
     else if 0 < fi.BS ∧ fi.BS ≤ 8 then some (geo 8 false)
     else if 8 < fi.BS ∧ fi.BS ≤ 12 then some (geo 12 false)
     else some (geo extParamDepth false)
